@@ -371,6 +371,17 @@ func (x *Exec) callInvoke(c *callCtx) {
 			return
 		}
 	}
+	if len(c.args) == 1 && typeKeyShort(recvT) == "checks.RuleChecker" && (m.Name() == "String" || m.Name() == "Reporter" || m.Name() == "Meta") {
+		// niladic methods of check values are deterministic functions of the receiver (assumption A11): the call
+		// yields the same term a specification gets for check.M()
+		env := &Env{x: x, cur: c.st, old: c.st, bound: map[string]Term{}}
+		recv := c.args[0]
+		recv.T = recvT
+		if t, ok := x.ifaceMethodValue(recv, m.Name(), env); ok {
+			c.res = []Term{x.nameTerm(c.n, "meth_"+m.Name(), t)}
+			return
+		}
+	}
 	if fc := x.prog.contractForInvoke(recvT, m.Name()); fc != nil {
 		sig := m.Type().(*types.Signature)
 		x.applyContractInvoke(c, fc, sig, iname)
